@@ -68,6 +68,8 @@ def fcalls(o):
 
 def to_case(o):
     k = o["kind"]
+    if k == "payload":
+        return "CPayload %d%%N %d%%N" % (o["msize"], o["cs"])
     if k == "bigwrite":
         return "CBigW %d%%N %d%%N %d%%N %d%%N %d%%N %s %s %d%%N %d%%N %s %s %s %s" % (
             o["msize"], o["cs"], o["pa"], o["pc"], o["lenp"], zz(o["off"]), ftape(o), o["stored"], max(o["n"], 0), err(o["err"]), fcalls(o),
@@ -114,11 +116,13 @@ def run(ctx):
     shards, cur, size = [], [], 0
     for i, o in enumerate(obs):
         t = "(%s)" % to_case(o)
-        if cur and (size + len(t) > 300000 or len(cur) >= 250):
+        # unary numbers make the long length-level runs expensive: weigh them
+        w = len(t) + (o.get("lenp", 0) // 2 if o["kind"] == "direct" else 0)
+        if cur and (size + w > 300000 or len(cur) >= 250):
             shards.append(cur)
             cur, size = [], 0
         cur.append((i, t))
-        size += len(t)
+        size += w
     if cur:
         shards.append(cur)
     texts = [HEADER % ";\n  ".join(t for _, t in sh) for sh in shards]
